@@ -14,7 +14,7 @@ from harness.core import Check, VERIF  # noqa: E402
 
 # the checks that exercise laspy's compression glue run it on the conforming backend double
 # (no real LAZ codec is installed); it must be importable before laspy is imported
-if len(sys.argv) > 1 and sys.argv[1].upper() in ("C03", "C04", "C06", "C08", "C14", "C15", "C16", "C17", "C18"):
+if len(sys.argv) > 1 and sys.argv[1].upper() in ("C01", "C03", "C04", "C06", "C08", "C14", "C15", "C16", "C17", "C18"):
     sys.path.insert(0, os.path.join(VERIF, "harness", "stubs"))
 
 
